@@ -42,6 +42,7 @@ func runParallel(fm *Frame, functions ...Callable) error {
 	VerifTrace(fm, "rp.begin", vtid, len(functions))
 	for i, function := range functions {
 		VerifTrace(fm, "rp.spawn", vtid, i)
+		verifRes(verifResGo, 1)
 		go func(fm2 *Frame, function Callable, pexc *Exception) {
 			VerifTrace(fm, "rp.start", vtid, i)
 			err := function.Call(fm2, NoArgs, NoOpts)
@@ -140,6 +141,7 @@ func peach(fm *Frame, opts peachOpt, f Callable, inputs Inputs) error {
 		}
 		wg.Add(1)
 		VerifTrace(fm, "peach.spawn", vtid, vi)
+		verifRes(verifResGo, 1)
 		go func() {
 			newFm := fm.Fork()
 			newFm.ports[0] = DummyInputPort
